@@ -76,6 +76,7 @@ type FnCtx struct {
 	blockIns    map[*ssa.BasicBlock][]Term
 	blockVias   map[*ssa.BasicBlock][]string
 	lastVias    []string
+	dropped     map[*Clause]bool
 	facts       []Term
 }
 
